@@ -1260,6 +1260,10 @@ class Inliner:
                         init = unwrap(init["args"][0] if init.get("k") == "Construct" else init.get("e"))
                     if isinstance(init, dict) and init.get("k") == "Lambda":
                         new_lams[v["id"]] = init
+                    elif isinstance(init, dict) and init.get("k") == "Ref" and init.get("d") == "local" and init.get("id") in getattr(self, "_lambdas", {}):
+                        # a named local lambda handed in by reference: the parameter is another name for it
+                        new_lams[v["id"]] = self._lambdas[init["id"]]
+                        self._lambda_calls[init["id"]] = self._lambda_calls.get(init["id"], 0)
         if new_lams and len(stack) < MAX_DEPTH + 2:
             self._lambdas.update(new_lams)
             res = self.tx_block(res, stack + ("<lambda-arg>",), fn)
@@ -1965,6 +1969,21 @@ def fold_constants(body, enums):
                     keep = copy.deepcopy(n["rhs"])
                     n.clear()
                     n.update(keep)
+        elif k in ("Bin", "OpCall") and n.get("op") in ("==", "!=") and "cv" not in n:
+            # a policy parameter bound to an enumerator at an expanded call site: `kind == StringKind::text`
+            a_ = n.get("lhs") if k == "Bin" else (n.get("args") or [None, None])[0]
+            b_ = n.get("rhs") if k == "Bin" else (n.get("args") or [None, None])[1] if len(n.get("args", [])) == 2 else None
+            ua, ub = unwrap(a_) if isinstance(a_, dict) else None, unwrap(b_) if isinstance(b_, dict) else None
+            while isinstance(ua, dict) and ua.get("k") == "Cast":
+                ua = unwrap(ua.get("e"))
+            while isinstance(ub, dict) and ub.get("k") == "Cast":
+                ub = unwrap(ub.get("e"))
+            if isinstance(ua, dict) and isinstance(ub, dict) and ua.get("k") == "Ref" and ub.get("k") == "Ref" and \
+                    ua.get("d") == "enumconst" and ub.get("d") == "enumconst" and ua.get("enum") == ub.get("enum") and ua.get("enum"):
+                v_ = (ua.get("val") == ub.get("val")) == (n["op"] == "==")
+                l_ = n.get("l")
+                n.clear()
+                n.update({"k": "Lit", "v": bool(v_), "t": "bool", "cv": int(v_), "l": l_})
         elif k == "Bin" and n.get("op") in ("+", "-", "*") and "cv" not in n and isinstance(n.get("lhs"), dict) and isinstance(n.get("rhs"), dict):
             # integer arithmetic over constants the front end did not fold in a template instance (`1 + sizeof(T)`)
             a_, b_ = ir.const_value(n["lhs"]), ir.const_value(n["rhs"])
@@ -3187,6 +3206,45 @@ def merge_branch_ends(body, facts):
             moved += len(head) + len(tail)
             i += len(new)
     return moved
+
+
+def coalesce_value_copies(body):
+    """`T y = x;` (the by-value parameter of an expanded helper) with x a local of the same type that is not mentioned again
+    anywhere after the declaration: y takes over x's name - the two never hold different values while both matter.  Returns
+    the number of declarations removed."""
+    count = 0
+    order = {}
+    for i, n in enumerate(walk(body)):
+        order[id(n)] = i
+    in_loop = set()
+    for lp in walk(body):
+        if lp.get("k") in ("While", "For", "Do", "RangeFor"):
+            for x in walk(lp):
+                in_loop.add(id(x))
+    for b in [x for x in walk(body) if x.get("k") == "Block"]:
+        sts = b.get("s", [])
+        for i, st in enumerate(sts):
+            if not (isinstance(st, dict) and st.get("k") == "Decl" and st.get("inl") and len(st.get("vars", [])) == 1):
+                continue
+            v = st["vars"][0]
+            src = ir.unwrap_all_casts(v.get("init")) if v.get("init") is not None else None
+            if v.get("ref") or (v.get("t") or "").rstrip().endswith(("&", "*")) or "id" not in v or id(st) in in_loop:
+                continue
+            if not (isinstance(src, dict) and src.get("k") == "Ref" and src.get("d") == "local" and
+                    (src.get("t") or "").replace("const ", "") == (v.get("t") or "").replace("const ", "")):
+                continue
+            if any(c_.get("k") == "Cast" and c_.get("ck") not in (None, "LValueToRValue", "NoOp") for c_ in walk(v["init"]) if c_ is not src):
+                continue
+            later = [x for x in walk(body) if x.get("k") == "Ref" and x.get("d") == "local" and x.get("id") == src.get("id") and
+                     order.get(id(x), 0) > order[id(st)] and x is not src]
+            if later:
+                continue
+            for x in walk(body):
+                if x.get("k") == "Ref" and x.get("d") == "local" and x.get("id") == v["id"]:
+                    x["id"], x["n"] = src.get("id"), src.get("n")
+            sts[i] = {"k": "Null", "l": st.get("l")}
+            count += 1
+    return count
 
 
 def merge_adjacent_result(body, facts):
@@ -4826,6 +4884,8 @@ def normalise(facts, do_inline=True, do_propagate=True):
                     if not nf_:
                         break
                     stats["stores_split"] = stats.get("stores_split", 0) + split_stores(f["body"], facts)
+                    _tidy(f["body"])
+                if coalesce_value_copies(f["body"]):
                     _tidy(f["body"])
                 nl_ = reswitch_loops(f["body"], facts, memo)
                 if nl_:
